@@ -23,10 +23,15 @@ pub enum Ty {
     Bool,
     Char,
     Str,
+    /// application-defined type (vcore::usertypes::Hex)
+    Hex,
+    /// application-defined borrowing type (vcore::usertypes::Tag<'a>)
+    Tag,
 }
 
-pub const ALL_TYS: [Ty; 17] = [
+pub const ALL_TYS: [Ty; 19] = [
     Ty::U8, Ty::U16, Ty::U32, Ty::U64, Ty::U128, Ty::Usize, Ty::I8, Ty::I16, Ty::I32, Ty::I64, Ty::I128, Ty::Isize, Ty::F32, Ty::F64, Ty::Bool, Ty::Char, Ty::Str,
+    Ty::Hex, Ty::Tag,
 ];
 
 impl Ty {
@@ -49,12 +54,19 @@ impl Ty {
             Ty::Bool => "bool",
             Ty::Char => "char",
             Ty::Str => "&'a str",
+            Ty::Hex => "vcore::usertypes::Hex",
+            Ty::Tag => "vcore::usertypes::Tag<'a>",
         }
+    }
+    pub fn borrows(&self) -> bool {
+        matches!(self, Ty::Str | Ty::Tag)
     }
     /// what ParseValueError.expected carries
     pub fn expected_name(&self) -> &'static str {
         match self {
             Ty::Str => "&str",
+            Ty::Hex => "hex number",
+            Ty::Tag => "#tag",
             t => t.name(),
         }
     }
@@ -306,6 +318,14 @@ fn gen_value_literal(rng: &mut Rng, ty: Ty) -> (String, String) {
             let s = *rng.pick(&["1.5", "0.25", "3.0"]);
             (s.to_string(), s.to_string())
         }
+        Ty::Hex => {
+            let n = *rng.pick(&[16u32, 255, 0, 0xBEEF]);
+            (format!("vcore::usertypes::Hex({})", n), format!("0x{:x}", n))
+        }
+        Ty::Tag => {
+            let t = *rng.pick(&["dflt", "é", "two words"]);
+            (format!("vcore::usertypes::Tag({:?})", t), format!("#{}", t))
+        }
         Ty::I8 | Ty::I16 | Ty::I32 | Ty::I64 | Ty::I128 | Ty::Isize => {
             let s = *rng.pick(&["7", "-3", "0", "100"]);
             (s.to_string(), s.to_string())
@@ -326,7 +346,7 @@ fn gen_fields(rng: &mut Rng, uid: &mut usize, allow_positional: bool, rich: bool
     let mut out = vec![];
     for _ in 0..n {
         let name = names.remove(rng.below(names.len())).to_string();
-        let ty = ALL_TYS[rng.weighted(&[6, 2, 3, 2, 1, 2, 3, 2, 4, 2, 1, 2, 2, 2, 8, 4, 10])];
+        let ty = ALL_TYS[rng.weighted(&[6, 2, 3, 2, 1, 2, 3, 2, 4, 2, 1, 2, 2, 2, 8, 4, 10, 4, 4])];
         let positional = allow_positional && rng.chance(40);
         let kind = if positional {
             FieldKind::Positional
@@ -467,7 +487,7 @@ impl<'r> Builder<'r> {
         // lifetime needed?
         let mut lifetime = false;
         for v in &variants {
-            if v.fields.iter().any(|f| f.ty == Ty::Str) {
+            if v.fields.iter().any(|f| f.ty.borrows()) {
                 lifetime = true;
             }
             if let Some(s) = &v.sub {
